@@ -57,21 +57,54 @@ static unsigned inside_flag(const void* p, size_t n) {
   for (const Range& r : g_blocks) if (q >= r.lo && q + n <= r.hi) return 0;
   return 16;
 }
-static std::string g_cbs;
-static void on_msg(void* ctx, const MessageHeader& header, const void* payload) {
-  if (!g_cbs.empty()) g_cbs.push_back(',');
-  g_cbs += "0:";
+// Two independent recorders: what the C-style callback saw and what the std::function callback saw.  Token K<n>
+// (anywhere in the line) registers exactly the set n (bit 0: C-style callback + context, bit 1: std::function), clearing
+// the others.  Every registered callback must see every dispatched message once, with identical arguments: when both are
+// registered and their records differ the segment is flagged CBDIFF; when none is registered the callbacks field is '~'
+// and only the return value is judged.  Messages above 1 MiB are recorded as H<length>-<crc32 of all bytes>.
+static std::string g_raw, g_fn;
+static unsigned g_reg = 1;
+static uint32_t soft_crc32(const uint8_t* p, size_t n) {          // independent of the repository's crc.cc
+  static uint32_t tab[256]; static bool init = false;
+  if (!init) { for (uint32_t i = 0; i < 256; ++i) { uint32_t c = i; for (int j = 0; j < 8; ++j) c = (c & 1) ? 0xEDB88320u ^ (c >> 1) : c >> 1; tab[i] = c; } init = true; }
+  uint32_t c = 0xFFFFFFFFu;
+  for (size_t i = 0; i < n; ++i) c = tab[(c ^ p[i]) & 0xFF] ^ (c >> 8);
+  return c ^ 0xFFFFFFFFu;
+}
+static void record(std::string& rec, unsigned ctxflag, const MessageHeader& header, const void* payload) {
+  if (!rec.empty()) rec.push_back(',');
+  rec += "0:";
   const uint8_t* p = reinterpret_cast<const uint8_t*>(&header);
-  for (size_t i = 0; i < sizeof(MessageHeader); ++i) { g_cbs.push_back(HEXD[p[i] >> 4]); g_cbs.push_back(HEXD[p[i] & 15]); }
   const uint8_t* q = static_cast<const uint8_t*>(payload);
-  for (size_t i = 0; i < header.payload_size_bytes; ++i) { g_cbs.push_back(HEXD[q[i] >> 4]); g_cbs.push_back(HEXD[q[i] & 15]); }
-  g_cbs.push_back(':');
-  unsigned pm = (unsigned)(reinterpret_cast<uintptr_t>(&header) & 3) + (q != p + sizeof(MessageHeader) ? 4 : 0) + (ctx != (void*)&g_cbs ? 8 : 0) +
-                inside_flag(p, sizeof(MessageHeader) + header.payload_size_bytes);
-  g_cbs += std::to_string(pm);
+  size_t total = sizeof(MessageHeader) + (size_t)header.payload_size_bytes;
+  if (total > (1u << 20)) {
+    std::vector<uint8_t> all(p, p + sizeof(MessageHeader));
+    all.insert(all.end(), q, q + header.payload_size_bytes);
+    char tmp[64]; snprintf(tmp, sizeof(tmp), "H%zu-%08x", total, (unsigned)soft_crc32(all.data(), all.size()));
+    rec += tmp;
+  } else {
+    for (size_t i = 0; i < sizeof(MessageHeader); ++i) { rec.push_back(HEXD[p[i] >> 4]); rec.push_back(HEXD[p[i] & 15]); }
+    for (size_t i = 0; i < header.payload_size_bytes; ++i) { rec.push_back(HEXD[q[i] >> 4]); rec.push_back(HEXD[q[i] & 15]); }
+  }
+  rec.push_back(':');
+  unsigned pm = (unsigned)(reinterpret_cast<uintptr_t>(&header) & 3) + (q != p + sizeof(MessageHeader) ? 4 : 0) + ctxflag + inside_flag(p, total);
+  rec += std::to_string(pm);
+}
+static void on_msg(void* ctx, const MessageHeader& header, const void* payload) {
+  record(g_raw, ctx != (void*)&g_raw ? 8 : 0, header, payload);
+  if (g_cb_resets && !(g_reg & 2)) static_cast<Framer*>(g_framer)->Reset();
+}
+static void on_msg_fn(const MessageHeader& header, const void* payload) {
+  record(g_fn, 0, header, payload);
   if (g_cb_resets) static_cast<Framer*>(g_framer)->Reset();
 }
-
+static void set_callbacks(Framer* f, unsigned reg) {
+  g_reg = reg & 3;
+  if (reg & 1) f->SetMessageCallback(on_msg, (void*)&g_raw);
+  else f->SetMessageCallback((FusionEngineFramer::RawMessageCallback) nullptr, nullptr);
+  if (reg & 2) f->SetMessageCallback(FusionEngineFramer::MessageCallback(on_msg_fn));
+  else f->SetMessageCallback(FusionEngineFramer::MessageCallback());
+}
 // private state is advisory: print -1 when a member no longer exists under that name
 template <class T> auto m_state(T& f, int) -> decltype((long)f.state_) { return (long)f.state_; }
 template <class T> long m_state(T&, long) { return -1; }
@@ -133,22 +166,48 @@ int main() {
     }
     g_framer = f;
     f->WarnOnError(false);
-    f->SetMessageCallback(on_msg, (void*)&g_cbs);
+    set_callbacks(f, 1);
     out = "C;" + adv(*f);
     while (is >> tok) {
       if (tok[0] == 'O') {
         unsigned bits = (unsigned)atoi(tok.c_str() + 1);
         f->WarnOnError((bits & 1) != 0);
-        if (bits & 2) {
-          f->SetMessageCallback((FusionEngineFramer::RawMessageCallback) nullptr, nullptr);
-          f->SetMessageCallback([](const MessageHeader& h, const void* p) { on_msg((void*)&g_cbs, h, p); });
-        }
+        if (bits & 2) set_callbacks(f, 2);
         g_cb_resets = (bits & 4) != 0;
         continue;
       }
+      if (tok[0] == 'K') { set_callbacks(f, (unsigned)atoi(tok.c_str() + 1)); continue; }
       out.push_back('|');
       asan_hit = 0;
-      if (tok[0] == 'R') {
+      if (tok[0] == 'G') {
+        // G<payload_bytes>,<fill>,<pieces>: a CRC-valid message built here (payload byte i = (31 i + fill) & 255, type 60800),
+        // fed in <pieces> OnData() calls; the segment reports the sum of the return values
+        size_t pl = 0; unsigned fill = 0, pieces = 1;
+        sscanf(tok.c_str() + 1, "%zu,%u,%u", &pl, &fill, &pieces);
+        std::vector<uint8_t> m(sizeof(MessageHeader) + pl);
+        MessageHeader h; h.message_type = (point_one::fusion_engine::messages::MessageType)60800; h.sequence_number = fill; h.payload_size_bytes = (uint32_t)pl;
+        memcpy(m.data(), &h, sizeof(h));
+        for (size_t i = 0; i < pl; ++i) m[sizeof(h) + i] = (uint8_t)((31 * i + fill) & 255);
+        uint32_t c = soft_crc32(m.data() + 8, m.size() - 8);
+        memcpy(m.data() + 4, &c, 4);
+        g_raw.clear(); g_fn.clear();
+        size_t ret = 0, done = 0;
+        bool inmod = false;
+        for (unsigned k = 0; k < pieces; ++k) {
+          size_t n = (k + 1 == pieces) ? m.size() - done : m.size() / pieces;
+          uint8_t* raw = (uint8_t*)malloc(n + 1);
+          memcpy(raw + 1, m.data() + done, n);
+          ret += f->OnData(raw + 1, n);
+          inmod = inmod || memcmp(raw + 1, m.data() + done, n) != 0;
+          free(raw);
+          done += n;
+        }
+        std::string& rec = (g_reg & 1) ? g_raw : g_fn;
+        bool diff = (g_reg == 3 && g_raw != g_fn) || (!(g_reg & 1) && !g_raw.empty()) || (!(g_reg & 2) && !g_fn.empty());
+        std::ostringstream os;
+        os << "D;" << ret << ';' << (g_reg == 0 ? "~" : rec.empty() ? "-" : rec) << ";0;0;" << (asan_hit ? "ASAN" : inmod ? "INMOD" : diff ? "CBDIFF" : "ok") << ';' << adv(*f);
+        out += os.str();
+      } else if (tok[0] == 'R') {
         f->Reset();
         out += "R;" + adv(*f);
       } else if (tok[0] == 'B') {
@@ -176,12 +235,14 @@ int main() {
         uint8_t* raw = (uint8_t*)malloc(off + d.size());
         uint8_t* in = raw + off;
         if (!d.empty()) memcpy(in, d.data(), d.size());
-        g_cbs.clear();
+        g_raw.clear(); g_fn.clear();
         size_t ret = f->OnData(in, d.size());
         bool inmod = !d.empty() && memcmp(in, d.data(), d.size()) != 0;
         free(raw);
         std::ostringstream os;
-        os << "D;" << ret << ';' << (g_cbs.empty() ? "-" : g_cbs) << ";0;0;" << (asan_hit ? "ASAN" : inmod ? "INMOD" : "ok") << ';' << adv(*f);
+        std::string& rec = (g_reg & 1) ? g_raw : g_fn;
+        bool diff = (g_reg == 3 && g_raw != g_fn) || (!(g_reg & 1) && !g_raw.empty()) || (!(g_reg & 2) && !g_fn.empty());
+        os << "D;" << ret << ';' << (g_reg == 0 ? "~" : rec.empty() ? "-" : rec) << ";0;0;" << (asan_hit ? "ASAN" : inmod ? "INMOD" : diff ? "CBDIFF" : "ok") << ';' << adv(*f);
         out += os.str();
       }
     }
